@@ -237,7 +237,7 @@ theorem parseInt_decI (v : Int) (h1 : -9223372036854775808 ≤ v) (h2 : v < 9223
   · have hn : (-v).toNat < 18446744073709551616 := by omega
     have hp := parseUint_digits (-v).toNat hn
     have hne : (45 :: digits (-v).toNat) ≠ [] := by simp
-    simp only [hv, if_true, parseInt, hne, if_false, hp]
+    simp only [hv, if_true, parseInt, signSplit, intOfUint, hne, if_false, hp]
     have a1 : ¬ ((-v).toNat > 9223372036854775808) := by omega
     simp [a1]; omega
   · obtain ⟨d, r, hd, hd1, hd2⟩ := digits_head_not_sign v.toNat
@@ -246,8 +246,11 @@ theorem parseInt_decI (v : Int) (h1 : -9223372036854775808 ≤ v) (h2 : v < 9223
     have hne := Rv.RespL.digits_ne_nil v.toNat
     simp only [hv, if_false, parseInt, hne]
     rw [hd] at hp ⊢
+    have hss : signSplit (d :: r) = (false, d :: r) := by
+      unfold signSplit; split <;> simp_all
+    rw [hss]
     have a1 : ¬ (v.toNat ≥ 9223372036854775808) := by omega
-    simp [hd1, hd2, hp, a1]; omega
+    simp [intOfUint, hp, a1]; omega
 
 /-! ### decimal texts through the base-0 parser (AsIntMap) -/
 open Rv.Spec in
@@ -294,7 +297,7 @@ theorem parseInt0_decI (v : Int) (h1 : -9223372036854775808 ≤ v) (h2 : v < 922
   · have hn : (-v).toNat < 18446744073709551616 := by omega
     have hp := parseUint0_digits (-v).toNat hn
     have hne : (45 :: digits (-v).toNat) ≠ [] := by simp
-    simp only [hv, if_true, parseInt, hne, if_false, hp]
+    simp only [hv, if_true, parseInt, signSplit, intOfUint, hne, if_false, hp]
     have a1 : ¬ ((-v).toNat > 9223372036854775808) := by omega
     simp [a1]; omega
   · obtain ⟨d, r, hd, hd1, hd2⟩ := digits_head_not_sign v.toNat
@@ -303,8 +306,11 @@ theorem parseInt0_decI (v : Int) (h1 : -9223372036854775808 ≤ v) (h2 : v < 922
     have hne := Rv.RespL.digits_ne_nil v.toNat
     simp only [hv, if_false, parseInt, hne]
     rw [hd] at hp ⊢
+    have hss : signSplit (d :: r) = (false, d :: r) := by
+      unfold signSplit; split <;> simp_all
+    rw [hss]
     have a1 : ¬ (v.toNat ≥ 9223372036854775808) := by omega
-    simp [hd1, hd2, hp, a1]; omega
+    simp [intOfUint, hp, a1]; omega
 
 /-! ### FT.SEARCH -/
 theorem asStrMapOpt_flat (kvs : List (Bytes × Bytes)) : asStrMapOpt (arr (flatKV kvs)) = .ok (some kvs) := by
